@@ -248,8 +248,8 @@ func c01Run(c *fw.Ctx) {
 
 func init() {
 	fw.Register(&fw.Check{
-		ID: "C01",
-		Rule: "each case: random small CFGs (2-6 terminals, 1-7 nonterminals, empty rules, recursion, several eoi/no-eoi inputs, state markers, mid-rule actions; half in a guarded LL(1)-like style) plus one large statement/expression grammar (>=80 states) are printed as textmapper source under one of the 8 optimizeTables/defaultReduce/minimizeDFA vectors, compiled by compiler.Compile (grammars with reported conflicts are discarded), generated, built with go build and run; every (grammar, input, token string) from {all strings up to a length bound, sampled sentences, token mutations} is judged by an Earley recognizer on the abstract CFG: accept iff sentence (no-eoi: iff a prefix is a sentence), else SyntaxError range == byte range of the first token leaving the viable prefixes (len(text) at end). In addition every lalr.Compile performed by compiler.Compile in this check runs under the table-level invariant monitors of C03-C06 (hook in lalr.Compile: reference LALR(1) cells, bisimulation across minimize, encoding comparison across Optimize); their findings are reported as hook/<property>/... Grammar non-trivial/distinct: >=4 states, both accepted and rejected inputs observed, distinct rule text",
+		ID:          "C01",
+		Rule:        "each case: random small CFGs (2-6 terminals, 1-7 nonterminals, empty rules, recursion, several eoi/no-eoi inputs, state markers, mid-rule actions; half in a guarded LL(1)-like style) plus one large statement/expression grammar (>=80 states) are printed as textmapper source under one of the 8 optimizeTables/defaultReduce/minimizeDFA vectors, compiled by compiler.Compile (grammars with reported conflicts are discarded), generated, built with go build and run; every (grammar, input, token string) from {all strings up to a length bound, sampled sentences, token mutations} is judged by an Earley recognizer on the abstract CFG: accept iff sentence (no-eoi: iff a prefix is a sentence), else SyntaxError range == byte range of the first token leaving the viable prefixes (len(text) at end). In addition every lalr.Compile performed by compiler.Compile in this check runs under the table-level invariant monitors of C03-C06 (hook in lalr.Compile: reference LALR(1) cells, bisimulation across minimize, encoding comparison across Optimize); their findings are reported as hook/<property>/... Grammar non-trivial/distinct: >=4 states, both accepted and rejected inputs observed, distinct rule text",
 		Assumptions: []string{"Earley recognizer in internal/cfg is correct", "the generated lexer tokenizes space-separated single-word literals correctly (covered by C11)", "conflict-freeness is taken from the compiler's own report (exactness of that report is C03)"},
 		Cases: func(tier string) int {
 			if tier == "thorough" {
